@@ -1,12 +1,232 @@
 /-
-  UnytModel.Ops.C13 — opcodes of the C13 model (prefix `c13.`).
+  UnytModel.Ops.C13 — opcodes of the C13 model (prefix `c13.`): the world of registries
+  `RegWorld.runOp` run at `Float` on the regenerated default table, with the C12 configuration
+  (`Generated.registryCfg`), the route shapes (`Generated.registryRoutes`) and the explicit-data flag
+  (`Generated.worldCfg`) the translator read off the live code.
+
+  Start-up world: table cell 0 = the module-level `default_unit_symbol_lut`, registry 0 = the
+  default registry (its own copy of the table in cell 1, class `_NonModifiableUnitRegistry`).
 -/
 import UnytModel.DriverBase
+import UnytModel.RegistryWorld
+import UnytModel.Generated.RegistryC12Cfg
+import UnytModel.Generated.RegistryRoutes
 
 namespace Unyt
+open RegC12 RegWorld
 
-def opsC13 : Handler := fun _st fields =>
-  match fields with
+def startWorld (base : Lut Float) : World Float :=
+  { luts := [base, base], caches := [{}], deriveds := [[]],
+    regs := [{ lut := 1, cache := 0, derived := 0, frozen := true }] }
+
+structure C13State where
+  cfg : Cfg := Generated.registryCfg
+  wc : WCfg := Generated.worldCfg
+  pre : Prefixes Float := defaultPrefixes Float
+  base : Lut Float := defaultLut Float
+  world : World Float := startWorld (defaultLut Float)
+  ptab : List (String × Except Err (PExpr Float)) := []
+  /-- the table cells of the user dicts made by `c13.dict`, in creation order -/
+  dictCells : Array Nat := #[]
+
+namespace C13State
+
+def parse (st : C13State) (q : String) : Except Err (PExpr Float) :=
+  match st.ptab.lookup q with
+  | some r => r
+  | none => .error .UnitParseError
+
+def cellStr (e : Option (Entry Float)) : String :=
+  match e with
+  | none => "-"
+  | some e => s!"{bitsStr e.scale},{bitsStr e.offset},{e.dim.str},{if e.prefixable then 1 else 0}"
+
+/-- the rows of `t` that differ from the default table (sorted by key), `k=-` for a default key `t` lacks -/
+def lutDigest (st : C13State) (t : Lut Float) : String :=
+  let keys := (t.map (·.1) ++ st.base.map (·.1)).eraseDups
+  let diff := keys.filterMap fun k =>
+    let a := cellStr (t.find? k)
+    let b := cellStr (st.base.find? k)
+    if a == b then none else some (k, a)
+  let sorted := diff.toArray.qsort (fun x y => x.1 < y.1) |>.toList
+  ";".intercalate (sorted.map fun p => s!"{p.1}={p.2}")
+
+def sortStrs (l : List String) : List String := l.toArray.qsort (· < ·) |>.toList
+
+def outStr (st : C13State) : Out Float → String
+  | .done => "done"
+  | .err e => s!"err\t{e.str}"
+  | .unit i d => s!"unit\t{i}\t{bitsStr d.scale}\t{bitsStr d.offset}\t{d.dim.str}"
+  | .bool b => s!"bool\t{if b then 1 else 0}"
+  | .entry e => s!"entry\t{bitsStr e.scale}\t{bitsStr e.offset}\t{e.dim.str}\t{if e.prefixable then 1 else 0}"
+  | .sysId snap => s!"sysid\t{st.lutDigest snap}"
+
+def woutStr (st : C13State) : WOut Float → String
+  | .cell c => s!"cell\t{c}"
+  | .regId r => s!"reg\t{r}"
+  | .out o => st.outStr o
+  | .err e => s!"err\t{e.str}"
+  | .unitIn r => s!"unitin\t{r}"
+  | .done => "done"
+
+def run (st : C13State) (op : WOp Float) : C13State × String :=
+  let (w, o) := runOp st.cfg st.wc st.pre st.parse st.world op
+  let st' := { st with world := w }
+  (st', st'.woutStr o)
+
+/-- what registry `r` holds: addresses, class, unit system, table digest, cached strings, derived keys, memo -/
+def dump (st : C13State) (r : Nat) : String :=
+  match st.world.regs[r]? with
+  | none => "none"
+  | some ro =>
+    let s := view st.world ro
+    let ck := sortStrs (s.cache.map (·.1)).eraseDups
+    s!"ok\t{ro.lut}\t{ro.cache}\t{ro.derived}\t{if ro.frozen then 1 else 0}\t{ro.usys}\t{st.lutDigest s.lut}\t{",".intercalate ck}\t{",".intercalate (sortStrs s.derived.eraseDups)}\t{if s.idMemo.isSome then 1 else 0}"
+
+end C13State
+
+def parseEntryC13 (sc dim off pf : String) : Option (Entry Float) :=
+  match fb sc, Dim.parse dim, fb off, parseBool pf with
+  | some s, some d, some o, some p => some ⟨s, d, o, p⟩
+  | _, _, _, _ => none
+
+def parseOpC13 : List String → Option (Op Float)
+  | ["add", sym, sc, dim, off, pf] => (parseEntryC13 sc dim off pf).map fun e => .add sym e
+  | ["addbad", sym] => some (.addInvalid sym)
+  | ["modf", sym, v] => (fb v).map fun x => .modifyF sym x
+  | ["modq", sym, v, dim, own] =>
+    match fb v, Dim.parse dim, parseBool own with
+    | some x, some d, some o => some (.modifyQ sym x d o)
+    | _, _, _ => none
+  | ["rm", sym] => some (.remove sym)
+  | ["unit", q] => some (.unit q)
+  | ["has", k] => some (.contains k)
+  | ["get", k] => some (.getitem k)
+  | ["sysid"] => some .sysId
   | _ => none
+
+/-- rows `sym,scale,offset,dim,pf` separated by `|` (dimension vectors contain `,`, so fields use `~`) -/
+def parseRowsC13 (s : String) : Option (Lut Float) :=
+  if s == "" then some [] else
+  (s.splitOn "|").mapM fun row =>
+    match row.splitOn "~" with
+    | [sym, sc, off, dim, pf] => (parseEntryC13 sc dim off pf).map fun e => (sym, e)
+    | _ => none
+
+def stepC13 (st : C13State) (fields : List String) : Option (C13State × String) :=
+  match fields with
+  | ["c13.reset"] => some ({ st with world := startWorld st.base, dictCells := #[] }, "ok")
+  | ["c13.cfg"] =>
+    let b := fun (x : Bool) => if x then "1" else "0"
+    some (st, s!"ok\t{b st.cfg.clearCache}\t{b st.cfg.purgeDerived}\t{b st.cfg.idSkipsDerived}\t{b st.cfg.memoResetLast}\t{b st.wc.cachesExplicit}")
+  | ["c13.parse", q, "atom", s] => some ({ st with ptab := (q, .ok (.atom s)) :: st.ptab }, "ok")
+  | ["c13.parse", q, "prod", co, fac] =>
+    match fb co, Factors.parse fac with
+    | some c, some f => some ({ st with ptab := (q, .ok (.prod c f)) :: st.ptab }, "ok")
+    | _, _ => some (st, "bad-op")
+  | ["c13.parse", q, "err"] => some ({ st with ptab := (q, .error .UnitParseError) :: st.ptab }, "ok")
+  | ["c13.dict", rows] =>
+    match parseRowsC13 rows with
+    | some t =>
+      let c := st.world.luts.length
+      let (st', o) := st.run (.dict t)
+      some ({ st' with dictCells := st'.dictCells.push c }, o)
+    | none => some (st, "bad-op")
+  | ["c13.fromdictn", di, ad] =>
+    match di.toNat?, parseBool ad with
+    | some d, some a =>
+      match st.dictCells[d]? with
+      | some c => some (st.run (.fromDict c a))
+      | none => some (st, "bad-op")
+    | _, _ => some (st, "bad-op")
+  | ["c13.fresh", ad, usys] =>
+    match parseBool ad with
+    | some a => some (st.run (.fresh a usys))
+    | none => some (st, "bad-op")
+  | ["c13.fromdict", c, ad] =>
+    match c.toNat?, parseBool ad with
+    | some c, some a => some (st.run (.fromDict c a))
+    | _, _ => some (st, "bad-op")
+  | ["c13.route", name, src] =>
+    match Generated.registryRoutes.lookup name, src.toNat? with
+    | some sh, some s => some (st.run (.route sh s))
+    | _, _ => some (st, "bad-route")
+  | ["c13.defunit", r, sym, sc, dim, off, pf] =>
+    match r.toNat?, parseEntryC13 sc dim off pf with
+    | some r, some e => some (st.run (.defineUnit r sym e))
+    | _, _ => some (st, "bad-op")
+  | ["c13.newsys", r, name, bus] =>
+    match r.toNat? with
+    | some r => some (st.run (.newSystem r name (if bus == "" then [] else bus.splitOn ",")))
+    | none => some (st, "bad-op")
+  | ["c13.mixed", a, b, key, sc, off, dim] =>
+    match a.toNat?, b.toNat?, fb sc, fb off, Dim.parse dim with
+    | some a, some b, some s, some o, some d => some (st.run (.mixed a b key ⟨s, o, d⟩))
+    | _, _, _, _, _ => some (st, "bad-op")
+  -- a registry made through an OBJECT of registry `src`: the unit string `q` is looked up through `src`
+  -- first (building the unit / array / quantity); only then does the route run; `post = 1`: the restored
+  -- object builds its unit from the string in the new registry (`unyt_array.__setstate__`)
+  | ["c13.routeobj", name, src, q, post] =>
+    match Generated.registryRoutes.lookup name, src.toNat?, parseBool post with
+    | some sh, some s, some p =>
+      let (st1, o1) := st.run (.reg s (.unit q))
+      if o1.startsWith "unit" then
+        let n := st1.world.regs.length
+        let (st2, o2) := st1.run (.route sh s)
+        if p && o2.startsWith "reg" then
+          let (st3, _) := st2.run (.reg n (.unit q))
+          some (st3, o2)
+        else some (st2, o2)
+      else some (st1, o1)
+    | _, _, _ => some (st, "bad-route")
+  -- `(Unit(qa, registry=src) * Unit(qb, registry=src)).copy()`: the copy is built from `str(expr)` = `key`
+  -- in a shallow copy of the registry — whose string cache is the source's, so a cached `key` answers
+  | ["c13.unitcopy", src, qa, qb, key] =>
+    match Generated.registryRoutes.lookup "unit_copy", src.toNat? with
+    | some sh, some s =>
+      let (st1, o1) := st.run (.reg s (.unit qa))
+      if !o1.startsWith "unit" then some (st1, o1) else
+      let (st2, o2) := st1.run (.reg s (.unit qb))
+      if !o2.startsWith "unit" then some (st2, o2) else
+      match st2.world.regs[s]? with
+      | none => some (st2, "bad-op")
+      | some ro =>
+        if ((view st2.world ro).cache.map (·.1)).contains key then some (st2, "same")
+        else some (st2.run (.route sh s))
+    | _, _ => some (st, "bad-route")
+  -- `define_unit(sym, (v, q), prefixable=pf, registry=r)`: `sym in r` → RuntimeError; the quantity's unit
+  -- from `q` through `r`; then the `define_unit` of the world model with the reduced row
+  | ["c13.defunitq", r, sym, v, q, pf] =>
+    match r.toNat?, fb v, parseBool pf with
+    | some r, some x, some p =>
+      let (st1, o1) := st.run (.reg r (.contains sym))
+      if o1 == "bool\t1" then some (st1, "err\tRuntimeError") else
+      if o1 != "bool\t0" then some (st1, o1) else
+      let (w2, o2) := runOp st1.cfg st1.wc st1.pre st1.parse st1.world (.reg r (.unit q))
+      let st2 := { st1 with world := w2 }
+      match o2 with
+      | .out (.unit _ u) => some (st2.run (.defineUnit r sym ⟨x * u.scale, u.dim, 0, p⟩))
+      | o => some (st2, st2.woutStr o)
+    | _, _, _ => some (st, "bad-op")
+  | ["c13.dump", r] =>
+    match r.toNat? with
+    | some r => some (st, st.dump r)
+    | none => some (st, "bad-op")
+  | ["c13.cell", c] =>
+    match c.toNat? with
+    | some c => some (st, s!"ok\t{st.lutDigest (lutAt st.world c)}")
+    | none => some (st, "bad-op")
+  | ["c13.count"] =>
+    some (st, s!"ok\t{st.world.regs.length}\t{st.world.luts.length}\t{st.world.caches.length}\t{st.world.deriveds.length}")
+  | ["c13.exported"] =>
+    some (st, s!"ok\t{",".intercalate (C13State.sortStrs (st.world.exported.map (·.1)))}\t{",".intercalate (C13State.sortStrs st.world.systems)}")
+  | "c13.op" :: r :: rest =>
+    match r.toNat?, parseOpC13 rest with
+    | some r, some o => some (st.run (.reg r o))
+    | _, _ => some (st, "bad-op")
+  | _ => none
+
+/-- the shared-state handler slot (all C13 opcodes are served by `stepC13`) -/
+def opsC13 : Handler := fun _st _fields => none
 
 end Unyt
